@@ -33,7 +33,13 @@ built = "Finished" in out_b
 rc_t, out_t = sh("cd %s && cargo +nightly test --workspace --no-fail-fast --offline 2>&1 | grep -E '^test result|^test .* FAILED'" % wt)
 groups = [l for l in out_t.splitlines() if l.startswith("test result")]
 failed_tests = [l for l in out_t.splitlines() if "FAILED" in l and not l.startswith("test result")]
-nonproc_failed = [l for l in failed_tests if "process::" not in l and " process" not in l]
+# tests the pinned baseline itself marks flaky / always failing in this sandbox do not count
+try:
+    _b = json.load(open("/root/.vp/BASELINE.json"))
+    _unstable = set(n.split("::")[-1] for n in _b.get("flaky", []) + _b.get("always_fail", []))
+except Exception:
+    _unstable = set()
+nonproc_failed = [l for l in failed_tests if "process::" not in l and l.split()[1] not in _unstable]
 rc_dw, out_dw = sh("cd %s && bash %s/run_demo.sh %s" % (wt, src, wt), timeout=900)
 clean()
 rc_do, out_do = sh("cd %s && bash %s/run_demo.sh %s" % (wt, src, wt), timeout=900)
